@@ -149,6 +149,7 @@ func runC01(e *Env) {
 		p   *N
 		src string
 		go_ string
+		tr  goTrace
 	}
 	batch := make([]item, 0, 256)
 	flush := func() {
@@ -160,7 +161,7 @@ func runC01(e *Env) {
 		}
 		vreqs := make([]string, len(batch))
 		for i, it := range batch {
-			vreqs[i] = "C01\tvmrun\t" + Sexp(it.p) + "\t" + c01Globals
+			vreqs[i] = "C01\tvmtrace\t" + Sexp(it.p) + "\t" + c01Globals
 		}
 		reps := e.O.AskBatch(reqs)
 		creps := e.O.AskBatch(creqs)
@@ -170,7 +171,9 @@ func runC01(e *Env) {
 			c01CompareCode(e, it.p, it.src, creps[i])
 			c01ParseCheck(e, it.p, it.src)
 			c01FragCheck(e, it.p, it.src)
-			// the Lean VM model on the Lean-compiled bytecode against the real run
+			// the Lean VM model on the Lean-compiled bytecode against the real run: outcome, and the
+			// dispatch trace instruction for instruction (c01trace.go)
+			vreps[i] = c01TraceCheck(e, it.src, it.go_, it.tr, vreps[i])
 			vf := strings.Split(vreps[i], "\t")
 			switch {
 			case vf[0] == "unsupported" || vf[0] == "oof":
@@ -194,8 +197,8 @@ func runC01(e *Env) {
 		o.Budget = budget
 		p := GenProgram(r, o)
 		src := Src(p)
-		out := EvalSrc(src, 5*time.Second)
-		batch = append(batch, item{p, src, goOutcome(out)})
+		out, tr := EvalSrcTraced(src, 5*time.Second)
+		batch = append(batch, item{p, src, goOutcome(out), tr})
 		if len(batch) == cap(batch) {
 			flush()
 		}
@@ -369,9 +372,10 @@ func c01DirectedStatements(lg *N, call func(int64) *N) []*N {
 func c01Directed(e *Env) {
 	for _, p := range c01DirectedPrograms() {
 		src := Src(p)
-		goOut := goOutcome(EvalSrc(src, 5*time.Second))
+		out, tr := EvalSrcTraced(src, 5*time.Second)
+		goOut := goOutcome(out)
 		model := e.O.Ask("C01", "eval", Sexp(p))
-		vm := e.O.Ask("C01", "vmrun", Sexp(p), c01Globals)
+		vm := c01TraceCheck(e, src, goOut, tr, e.O.Ask("C01", "vmtrace", Sexp(p), c01Globals))
 		e.R.Case(Sexp(p), true)
 		e.R.H("directed_eval_order", "cases")
 		if vm != goOut {
